@@ -1279,10 +1279,11 @@ def _rolling_sum_or_mean_1d(
                 group_n_seen[key] += 1
 
             if group_non_null[key] >= min_periods:
-                if want_mean:
-                    out[i] = group_sums[key] / group_non_null[key]
-                else:
+                if not want_mean:
                     out[i] = group_sums[key]
+                elif group_non_null[key] > 0:
+                    # (min_periods=0 admits windows without any value: their mean stays null)
+                    out[i] = group_sums[key] / group_non_null[key]
 
     return out
 
